@@ -3,11 +3,12 @@ from vlib.term import z, to_coq
 
 ID = 'C04'
 PROP_FILE = 'Props/C04.v'
-EVAL_FILES = ['Model/PubCases.v', 'Oracle/C04Oracle.v']
+EXTRA_PROP_FILES = ['Props/C04Src.v']     # K1 source tie (tools/props/src_translate.py), see docs/reports/SRC.md
+EVAL_FILES = ['Model/PubCases.v', 'Model/PubGetters.v', 'Oracle/C04Oracle.v']
 CRATES = ['c04']
 MODES = ['debug', 'release']
 IMPORTS = ('Require Import V.Base.MachineInt V.Model.LogBase V.Model.Appender V.Model.Publication V.Model.ExclPublication '
-           'V.Model.PubCases V.Oracle.C04Oracle.')
+           'V.Model.PubCases V.Model.PubGetters V.Oracle.C04Oracle.')
 RULE = ('histories of 4..40 operations {offer k len | try_claim len then commit / abort | offer_bulk of a split message | set limit | '
         'set connected | close | clean next partition} on a shared Publication and on an ExclusivePublication over an in-memory log '
         '(term length 1 KiB / 4 KiB / 64 KiB, MTU a multiple of 32 in 64..term/8) handed over at (n0, off0): n0 in {0,1,2,5, 2^31-3, 2^31-2, 2^31-1, random}, '
@@ -17,7 +18,10 @@ RULE = ('histories of 4..40 operations {offer k len | try_claim len then commit 
         'a malformed stream adds operations after close, commits without a claim, over-long claims and offers. '
         'After every operation: result, full dump of the log (count, raw tails, non-zero words of the 3 partitions), position(). '
         'A history is non-trivial when it moves the limit and contains at least one refused and one accepted offer / claim candidate '
-        '(>= 5 operations with a limit change); distinct = distinct histories')
+        '(>= 5 operations with a limit change); distinct = distinct histories. '
+        'Case kind gets (every 6th history once more, plus boundary histories): the same history, observed through the getters instead of the log - '
+        'is_closed, is_connected, publication_limit(), available_window(), position(), (exclusive) term_id / term_offset at hand-over and after every '
+        'operation, and max_message_length / max_payload_length / term_buffer_length / position_bits_to_shift / initial_term_id / session_id / stream_id once')
 ASSUMPTIONS = [
     'sequential semantics of get_and_add_raw_tail / rotate_log (one publisher thread; interleavings belong to C02)',
     'the driver zeroes a partition before the log rotates into it (Clean operations in the histories); lengths are >= 0',
@@ -218,12 +222,25 @@ def generate(rng, tier):
         pubkind = 's' if i % 2 == 0 else 'x'
         cases.append(gen_history(rng, pubkind,
                                  malformed=(i % 10 == 9), last_terms=(i % 7 == 3), with_bulk=True, wild_limits=(i % 5 == 4)))
-    return cases
+    # the getters: boundary histories around the limit (window 0 / 1 / negative, close, connection flag), then random histories
+    gets = []
+    for pubkind in ('s', 'x'):
+        for (tlen, mtu, n0, off0) in ((1024, 96, 0, 0), (4096, 256, 4, 4096 - 64), (1024, 128, 2**31 - 1, 1024 - 64), (65536, 4096, 2**31 - 1, 65536)):
+            p = n0 * tlen + off0
+            gets.append({'kind': 'gets', 'pub': pubkind, 'geom': [tlen, mtu, MAXI, n0, off0],
+                         'ops': [['n', 1], ['l', p], ['o', 1, 8], ['l', p + 1], ['c', 8], ['z'], ['l', p - 1], ['o', 2, 8], ['l', I64MAX], ['o', 3, 40], ['z'],
+                                 ['n', 0], ['l', -1], ['o', 4, 0], ['n', 1], ['x'], ['o', 5, 1], ['l', 5], ['n', 0], ['n', 1]]})
+    for i in range(n // 6 if not big else n // 4):
+        pubkind = 's' if i % 2 == 0 else 'x'
+        h = gen_history(rng, pubkind, malformed=(i % 5 == 4), last_terms=(i % 4 == 1), with_bulk=True, wild_limits=(i % 3 == 2))
+        h['kind'] = 'gets'
+        gets.append(h)
+    return cases + gets
 
 
 def impl_line(c):
     ops = ' ; '.join(' '.join(str(x) for x in o) for o in c['ops'])
-    return 'hist %s %s | %s' % (c['pub'], ' '.join(str(x) for x in c['geom']), ops)
+    return '%s %s %s | %s' % (c['kind'], c['pub'], ' '.join(str(x) for x in c['geom']), ops)
 
 
 def zl(xs):
@@ -268,15 +285,25 @@ def oop_coq(o, pubkind):
 
 
 def model_expr(c, mode):
-    f = 'shared_case' if c['pub'] == 's' else 'excl_case'
+    if c['kind'] == 'gets':
+        f = 'shared_gets' if c['pub'] == 's' else 'excl_gets'
+    else:
+        f = 'shared_case' if c['pub'] == 's' else 'excl_case'
     return '%s %s %s [%s]' % (f, mode_c(mode), ' '.join(z(x) for x in c['geom']), '; '.join(op_coq(o) for o in c['ops']))
 
 
 def oracle_expr(c, mode, obs):
+    g = c['geom']
+    if c['kind'] == 'gets':
+        # (statics, [getters ...]): one observation at hand-over and one per operation
+        if isinstance(obs, int) or obs[0] != 'tuple' or len(obs[1]) != 2 or obs[1][1][0] != 'list' or len(obs[1][1][1]) != len(c['ops']) + 1:
+            return 'false'
+        return 'holds_gets (mkGeom %s %s %s) %s [%s] %s' % (
+            ' '.join(z(x) for x in g), z(SESSION), z(STREAM), 'true' if c['pub'] == 'x' else 'false',
+            '; '.join(oop_coq(o, c['pub']) for o in c['ops']), to_coq(obs))
     if isinstance(obs, int) or obs[0] != 'list' or len(obs[1]) != len(c['ops']):
         return 'false'
-    g = c['geom']
-    return 'holds_history (mkGeom %s %s %s) [%s] %s' % (
+    return 'holds_history2 (mkGeom %s %s %s) [%s] %s' % (
         ' '.join(z(x) for x in g), z(SESSION), z(STREAM), '; '.join(oop_coq(o, c['pub']) for o in c['ops']), to_coq(obs))
 
 
